@@ -32,8 +32,8 @@ fn is_numeric_looking(s: &str) -> bool {
                     # Scientific without dot: 1e9
                     [0-9][0-9_]*[eE][+-]?[0-9][0-9_]*
                 |
-                    # Plain integer: 123
-                    [0-9][0-9_]*
+                    # Plain integer: 123 (the integer reader skips `_` anywhere, also in front: _1_000)
+                    _*[0-9][0-9_]*
                 )
             )$
             ",
